@@ -4,6 +4,7 @@ usage: make_twin.py <RM-id> <seed-id|-> <edit.py> "<note>"
   applies seeded/<seed-id>/patch.diff to /repo (unless '-'), runs edit.py (which edits files under /repo/src),
   saves the diff as refactors/<RM-id>/patch.diff, confirms the 94 tests pass, runs every check, restores /repo."""
 import sys, os, json, re, subprocess
+os.environ['VERIF_EVIDENCE_DIR'] = '/tmp/pp-evidence-scratch'
 V = os.path.dirname(os.path.dirname(os.path.abspath(__file__)))
 
 
